@@ -3,6 +3,7 @@
   See notes/C18.md.
 -/
 import Gozod.Model.Msg
+import Gozod.Model.Config
 import Gozod.Gen.MsgWiring
 import Gozod.Gen.LocaleTable
 namespace Gozod.C18
@@ -186,5 +187,50 @@ theorem c18_locales_cover :
     (∀ l ∈ requiredLocales, (Gozod.Gen.localeTable.lookup l).isSome = true) ∧
     (∀ row ∈ Gozod.Gen.localeTable, ∀ k ∈ requiredKinds, row.2.lookup k = some true) := by
   decide +kernel
+
+section SetConfigHistories
+open Gozod.Config
+
+/-! ## SetConfig histories -/
+
+theorem run_snoc {α : Type} (h : List (Call α)) (c : Call α) : run (h ++ [c]) = step (run h) c := by
+  simp [run, List.foldl_append]
+
+theorem run_reverse {α : Type} (r : List (Call α)) : run r.reverse = ⟨lastCustom r, lastLocale r⟩ := by
+  induction r with
+  | nil => rfl
+  | cons c r ih =>
+    rw [List.reverse_cons, run_snoc, ih]
+    cases c with
+    | reset => simp [step, lastCustom, lastLocale, Cfg.zero]
+    | set cu lo => cases cu <;> cases lo <;> simp [step, lastCustom, lastLocale]
+
+/-- **setconfig_history**: after ANY history of SetConfig calls the stored configuration is, field by
+    field, the last non-nil value passed for that field since the last reset. -/
+theorem setconfig_history {α : Type} (h : List (Call α)) : run h = spec h := by
+  have := run_reverse h.reverse
+  simpa [spec] using this
+
+/-- consequences used by the harness: a later call that passes only one field keeps the other -/
+theorem setconfig_keeps_locale {α : Type} (h : List (Call α)) (x : α) :
+    (run (h ++ [.set (some x) none])).locale = (run h).locale := by
+  rw [run_snoc]; simp [step]
+
+theorem setconfig_keeps_custom {α : Type} (h : List (Call α)) (x : α) :
+    (run (h ++ [.set none (some x)])).custom = (run h).custom := by
+  rw [run_snoc]; simp [step]
+
+/-- witness: a SetConfig whose locale field inherits the current custom map falsifies the history
+    theorem — locale installed first, custom map second (the order the table of cells now covers) -/
+theorem crossed_setconfig_breaks_history :
+    ([Call.set none (some "de"), Call.set (some "cus") none].foldl stepCrossed Cfg.zero).locale = none ∧
+    (spec [Call.set none (some "de"), Call.set (some "cus") none]).locale = some "de" := by
+  decide
+
+example : run [Call.set (some 1) (some 2), .reset, .set none (some 3), .set (some 4) none, .set none none]
+    = ⟨some 4, some 3⟩ := by decide
+
+
+end SetConfigHistories
 
 end Gozod.C18
